@@ -53,6 +53,7 @@ class C03(Prop):
             cfg["shuffle_order"] = r.random() < 0.7
             cfg["name_style"] = r.choice(["unique", "scoped", "scoped", "pool"])
             cfg["name_pool"] = NAME_POOL
+            cfg["scoped_case"] = r.choice([0.0, 0.3])
             cfg["ident_rate"] = r.choice([0.0, 0.0, 0.3])
             cfg["edif_props"] = r.random() < 0.6
             cfg["array_rate"] = r.choice([0.0, 0.3])
